@@ -1,5 +1,7 @@
 import TLVerif.Util.Hex
 import TLVerif.Tool.Tags
+import TLVerif.Tool.OutDir
+import TLVerif.Tool.RelPath
 /-! Line-protocol handler for the `tool` family (C14, C15, C16, C24): every line is a self-contained case. -/
 namespace TLVerif.Tool
 open TLVerif.Util
@@ -55,10 +57,62 @@ def handleTags (t1 t2 : String) : String :=
     s!"{k}{l} a:{showTags tl1} m:{m}"
   | _, _ => "bad-op"
 
+/-! ### C16: histories of generations into one directory -/
+
+def sortStrs (l : List String) : List String := l.mergeSort (fun a b => decide (a ≤ b))
+def showList (l : List String) : String := if l.isEmpty then "-" else ",".intercalate l
+
+def parseKV (w : String) : Option (Path × String) :=
+  match w.splitOn "=" with
+  | [k, v] => if k.isEmpty || v.isEmpty then none else some (k, v)
+  | _ => none
+
+def parseCode (s : String) : Option (List (Path × String)) := allSome ((commaList s).map parseKV)
+
+def parseStep (w : String) : Option Step :=
+  match w.splitOn ":" with
+  | "g" :: c :: _ => (parseCode c).map Step.gen
+  | ["p", kv] => (parseKV kv).map fun (k, v) => Step.plantFile k v
+  | ["d", d] => if d.isEmpty then none else some (Step.plantDir d)
+  | ["r", k] => if k.isEmpty then none else some (Step.rm k)
+  | _ => none
+
+def showResult (r : WriteResult) : String :=
+  let o := match r.outcome with
+    | .ok => "ok"
+    | .refused => "ref"
+  let t := sortStrs (r.fs.files.map fun kv => kv.1 ++ "=" ++ kv.2)
+  s!"{o};w={showList (sortStrs r.written)};x={showList (sortStrs r.deleted)};T={showList t};D={showList (sortStrs r.fs.dirs)}"
+
+def handleOutdir (fmt : Path → String → String) (marker steps : String) : String :=
+  match allSome ((steps.splitOn ";").map parseStep) with
+  | none => "bad-op"
+  | some st =>
+    let (_, rs) := runHistory fmt marker FS.empty st
+    if rs.isEmpty then "none" else
+    let nok := (rs.filter fun r => r.outcome == .ok).length
+    s!"r={nok}.{rs.length - nok} " ++ "|".intercalate (rs.map showResult)
+
+def textOfHex (h : String) : Option String :=
+  (bytesOfHex h).map fun bs => String.ofList (bs.map fun b => Char.ofNat b.toNat)
+
+def hexOfText (s : String) : String := hexOfBytes (s.toList.map fun c => UInt8.ofNat c.toNat)
+
+def handleRelPath (a b : String) : String :=
+  match textOfHex a, textOfHex b with
+  | some p, some q =>
+    match basicRelPath p q with
+    | .error _ => "err"
+    | .ok rel => "ok " ++ hexOfText rel
+  | _, _ => "bad-op"
+
 def handle (op : String) (args : List String) : String :=
   match op, args with
   | "tags", [t1, t2, _, _] => handleTags t1 t2
   | "tagscli", [t1, t2, _, _] => handleTags t1 t2
+  | "outdir", [marker, steps] => handleOutdir fmtIds marker steps
+  | "relpath", [a, b] => handleRelPath a b
+  | "outcli", [marker, steps] => handleOutdir (fun _ c => c) marker steps
   | _, _ => "bad-op"
 
 end TLVerif.Tool
